@@ -73,6 +73,8 @@ def run_clause(cls, func, names, args, clause):
         if clause not in (None, 'noraise') and not (n == clause or clause.startswith('post:') and clause.split(':')[1].split('#')[0] == n):
             continue
         kw = {k: (result if k == 'result' else args[k]) for k in inspect.signature(f).parameters}
+        if n == 'post' and type(result) is list:
+            kw['result'] = api.BagList(result)
         try:
             ok = f(**kw)
         except Exception as e:  # noqa: BLE001
